@@ -164,6 +164,14 @@ def rule_t3(report, prog):
     ws = [c for c in ast.walk(g.node) if isinstance(c, ast.Call) and norm(c.func) == 'self._tag.write_to_ndef_service']
     report.check(len(ws) == 1 and [norm(a) for a in ws[0].args] == ['attribute_data', '0'], 'C02-R4',
                  key(g.qname, 'attribute data is one write of block 0'), g.loc(), 'attribute block is not written with a single command')
+    # the writer folded over Nbw x message lengths (rules/t3model.py, block numbers below and above 255): when the final attribute
+    # block commits the new length every block of the message has been written, in order, each exactly once -- otherwise the
+    # committed message mixes old and new octets
+    from . import t3model
+    wv = t3model.write_verdicts(prog)
+    report.check(not wv, 'C02-R4', key(f.qname, 'folded writer: every block of the message is written before Ln / WriteFlag=00h commit it'), f.loc(),
+                 'the Type 3 writer commits a message whose blocks were not all written: %s' % '; '.join(wv[:2]),
+                 detail='%d grid points folded' % len(t3model.WRITE_GRID))
     # readers treat WriteFlag != 0 as not readable
     r = prog.func('nfc.tag.tt3.Type3Tag.NDEF._read_attribute_data')
     report.check(bool(find(r.node, 'self._readable = writef == 0 and nbr > 0')), 'C02-R4', key(r.qname, 'WriteFlag != 0 means not readable'),
